@@ -216,7 +216,8 @@ class TreeStorage(BaseStorage):
         if leaf_id not in data_reservoir:
             data_reservoir[leaf_id] = GeometricReservoirStorage(
                 size=self._leaf_reservoir_length, store_targets=False, constant_probability=1.0)
-            self._delete_outdated_reservoirs(feature_name, root_node)
+        # the adaptive trees also prune / swap subtrees that are not on the path of the current point
+        self._delete_outdated_reservoirs(feature_name, root_node)
         data_reservoir[leaf_id].update(x)
 
     def __call__(self, feature_name: Any) -> Tuple[Union[HoeffdingTreeRegressor, HoeffdingTreeClassifier], str]:
